@@ -60,13 +60,12 @@ where
     // Hash verification key into transcript
     vk.hash_into(transcript)?;
 
-    for committed_instances in committed_instances.iter() {
+    // Same order as the prover: proof by proof, committed instances first.
+    for (committed_instances, instance) in committed_instances.iter().zip(instances.iter()) {
         for commitment in committed_instances.iter() {
             transcript.common(commitment)?
         }
-    }
 
-    for instance in instances.iter() {
         for instance in instance.iter() {
             transcript.common(&F::from_u128(instance.len() as u128))?;
             for value in instance.iter() {
